@@ -30,7 +30,7 @@ StrLeaves  == {LS(sAB), Var("s")} \cup (IF RichLeaves THEN {Filt("upper", Var("s
 BoolLeaves == {LB(TRUE), Var("q")} \cup (IF RichLeaves THEN {Test(Var("a"), "defined", <<>>, FALSE), Test(Var("nosuchvar"), "defined", <<>>, FALSE),
                                                              Test(Var("b"), "even", <<>>, FALSE), Test(Var("a"), "even", <<>>, TRUE)} ELSE {})
 ListLeaves == {Lit(VL(<<VI(2), VI(6)>>))}
-PatLeaves  == {LS(<<47, 98, 47>>)}          \* '/b/'
+PatLeaves  == {LS(<<47, 98, 47>>), LS(<<47, 66, 47, 105>>), LS(<<47, 66, 47>>)}          \* '/b/', '/B/i', '/B/'
 
 ArithOps == {"+", "-", "*", "/", "%", "^"}
 CmpIOps  == {"==", "!=", "<", ">", "<=", ">="}
@@ -119,6 +119,21 @@ SpyTrees ==
     \cup {[ty |-> "int", e |-> Bin(op, Attr(Var("o"), "x"), Item(Var("o"), LS(<<121>>)))] : op \in {"+", "*", "-"}}
     \cup {[ty |-> "int", e |-> Bin(op, Bin(op2, Item(Var("l"), LI(1)), LI(2)), Attr(Var("o"), "x"))] : op \in {"+", "*"}, op2 \in {"+", "*"}}
 
+\* results beyond 2^24 (what a 32-bit float holds exactly); integer literals written with leading zeros are decimal numbers
+NumTrees ==
+    {[ty |-> "int", e |-> e] : e \in {Bin("*", LI(4097), LI(4097)), Bin("+", LI(123456700), LI(89)), Bin("+", LI(16777216), LI(1)), Bin("-", LI(16777218), LI(1)),
+                                      Bin("*", LI(30000), LI(29999)), Bin("*", Un("-", LI(4097)), LI(4097)), Bin("+", Bin("*", LI(4097), LI(4097)), LI(0)), Bin("^", LI(30), LI(5)),
+                                      Bin("/", LI(33570818), LI(2)), Bin("%", LI(16785409), LI(16785408)), Bin("-", LI(0), Bin("*", LI(4099), LI(4099))),
+                                      Bin("+", LitRaw(VI(10), "010"), LI(1)), Bin("*", LitRaw(VI(8), "08"), LitRaw(VI(100), "0100")), Bin("-", LitRaw(VI(7), "007"), LitRaw(VI(0), "00")),
+                                      Bin("+", LitRaw(VI(190), "0190"), LitRaw(VI(9), "09")), LitRaw(VI(10), "010"), LitRaw(VI(30), "0030"), Un("-", LitRaw(VI(12), "012"))}}
+    \* names that differ only in the case of their letters, names that spell a keyword with a capital, are names of their own
+    \cup {[ty |-> "int", e |-> e] : e \in {Bin("-", Var("A"), Var("a")), Bin("+", Var("a"), Var("A")), Bin("+", Var("In"), Var("If")), Bin("*", Var("Set"), Var("With")),
+                                            Bin("-", Attr(Var("o"), "X"), Attr(Var("o"), "x")), Bin("+", Var("From"), Bin("*", Var("As"), Var("Block"))), Bin("+", Var("Not"), Var("And"))}}
+    \cup {[ty |-> "str", e |-> e] : e \in {Bin("~", Var("s"), Var("S")), Bin("~", Var("S"), Var("s")), Bin("~", Var("Or"), Var("s"))}}
+    \cup {[ty |-> "str", e |-> e] : e \in {Bin("~", Bin("*", LI(4097), LI(4097)), LS(<<>>)), Bin("~", LitRaw(VI(8), "08"), Bin("~", LS(<<58>>), LitRaw(VI(30), "030")))}}
+    \cup {[ty |-> "bool", e |-> e] : e \in {Bin("==", Bin("*", LI(4097), LI(4097)), LI(16785409)), Bin("<", Bin("*", LI(4097), LI(4097)), LI(16785409)),
+                                              Bin("==", LitRaw(VI(10), "010"), LI(10)), Bin("<", LitRaw(VI(9), "09"), LitRaw(VI(10), "010")), Bin("in", LitRaw(VI(8), "08"), Arr(<<LI(8)>>))}}
+
 \* containment in a long sequence (the engine switches to a lookup table above 50 elements): literal and computed left operands
 Big(n) == VL([i \in 1..n |-> VI(i)])
 InTrees ==
@@ -128,7 +143,9 @@ InTrees ==
         r \in {Var("big"), Var("big50"), Lit(Big(52)), Var("bigt")}}
     \cup {[ty |-> "bool", e |-> Bin("and", Bin("in", Bin("+", Var("a"), LI(4)), Var("big")), Bin("not in", Bin("*", Var("a"), LI(10)), Var("big")))]}
 
-Ctx2 == Ctx @@ ("big" :> Big(60)) @@ ("big50" :> Big(50)) @@ ("bigt" :> VLg([i \in 1..55 |-> VI(i)], "ints")) @@ ("o" :> VM(<<VS(<<120>>), VS(<<121>>)>>, <<VI(5), VI(3)>>)) @@ ("l" :> VL(<<VI(4), VI(9)>>))
+CaseNames == ("A" :> VI(70)) @@ ("S" :> VS(<<90>>)) @@ ("In" :> VI(11)) @@ ("If" :> VI(13)) @@ ("Set" :> VI(17)) @@ ("With" :> VI(19)) @@ ("From" :> VI(23))
+             @@ ("As" :> VI(29)) @@ ("Block" :> VI(31)) @@ ("Not" :> VI(37)) @@ ("And" :> VI(41)) @@ ("Or" :> VS(<<111, 114>>))
+Ctx2 == Ctx @@ CaseNames @@ ("big" :> Big(60)) @@ ("big50" :> Big(50)) @@ ("bigt" :> VLg([i \in 1..55 |-> VI(i)], "ints")) @@ ("o" :> VM(<<VS(<<120>>), VS(<<121>>), VS(<<88>>)>>, <<VI(5), VI(3), VI(50)>>)) @@ ("l" :> VL(<<VI(4), VI(9)>>))
 
 \* ---- observation wrappers ------------------------------------------------------
 cT == <<84>>  cF == <<70>>  cX == <<88>>
@@ -221,7 +238,7 @@ PositionsAgree(t) ==
 
 Init == cs \in Parts
 Next == /\ "k" \in DOMAIN cs
-        /\ cs' \in {t \in (IF cs.ty = "spy" THEN SpyTrees \cup InTrees ELSE TreesOfPart(cs)) : InFragment(t)}
+        /\ cs' \in {t \in (IF cs.ty = "spy" THEN SpyTrees \cup InTrees \cup NumTrees ELSE TreesOfPart(cs)) : InFragment(t)}
 Spec == Init /\ [][Next]_cs
 
 IsTree == "e" \in DOMAIN cs
